@@ -231,6 +231,13 @@ func c05Grid(r *rand.Rand, extra int) []CmpVal {
 	for i := 0; i < extra; i++ {
 		lit(randOperand(r))
 	}
+	// numbers that come out of coercions, builtins, selections and host functions
+	for _, e := range [][2]string{{"(+'5')", "5"}, {"(-'3')", "-3"}, {"toFloat('2.5')", "2.5"}, {"toInt('7.9')", "7"}, {"len('abc')", "3"}, {"find('abc', 'c')", "2"}, {"round(2.4)", "2"}, {"abs(0 - 1)", "1"},
+		{"max(1, 2)", "2"}, {"(1 ? 1 : 0)", "1"}, {"(0 || 2)", "2"}, {"(null ?? 1)", "1"}, {"($l = 3)", "3"}, {"floor(0.3)", "0"}, {"sqrt(4)", "2"}, {"year(date(2, 1, 1))", "2"}, {"(1, 2)", "2"}, {"~0", "-1"}, {"(3 & 1)", "1"}} {
+		g = append(g, CmpVal{Src: e[0], Kind: "num", Num: e[1]})
+	}
+	g = append(g, CmpVal{Src: "fseven()", Kind: "num", Num: "7", Data: &val.KV{K: "fseven", V: val.Fn("retint")}},
+		CmpVal{Src: "fhalf()", Kind: "num", Num: "1.5", Data: &val.KV{K: "fhalf", V: val.Fn("retf32")}}, CmpVal{Src: "fsame(1)", Kind: "num", Num: "1", Data: &val.KV{K: "fsame", V: val.Fn("id")}})
 	// data numbers
 	dn := func(name string, v val.V, num string) {
 		g = append(g, CmpVal{Src: name, Kind: "num", Num: num, Data: &val.KV{K: name, V: v}})
@@ -244,6 +251,13 @@ func c05Grid(r *rand.Rand, extra int) []CmpVal {
 	dn("dfneg0", val.F64(-0.0*1), "0")
 	dn("dd1", val.Dec("1.000"), "1")
 	dn("df125", val.F64(12.5), "12.5")
+	// a float32 and the float64 that holds the very same real number are one value
+	for i, f := range []float32{0.1, 1.1, 2.675, 33.333332, 16777216, 0.5} {
+		wide := float64(f)
+		num := strconv.FormatFloat(wide, 'f', -1, 64)
+		dn(fmt.Sprintf("df32_%d", i), val.F32(f), num)
+		dn(fmt.Sprintf("df64w_%d", i), val.F64(wide), num)
+	}
 	dn("dwide1", val.Dec("1234567890123456789012345678901234567890"), "1234567890123456789012345678901234567890")
 	dn("dwide2", val.Dec("1234567890123456789012345678901234567891"), "1234567890123456789012345678901234567891")
 	dn("dwide3", val.Dec("1000000000000000000000000000000000000.5"), "1000000000000000000000000000000000000.5")
